@@ -244,6 +244,7 @@ func dispatchConnection(conn net.Conn, sta *State) {
 		return
 	}
 
+	common.VerifPoint("dispatch.userResolved")
 	sesh, existing, err := user.GetSession(ci.SessionId, seshConfig)
 	if err != nil {
 		user.CloseSession(ci.SessionId, "")
